@@ -44,6 +44,15 @@ def sliceTo {α : Type} (l : List α) (hi : Int) : Res (List α) :=
 def set {α : Type} (l : List α) (i : Int) (v : α) : Res (List α) :=
   if 0 ≤ i ∧ i < (l.length : Int) then .ok (l.set i.toNat v) else .fault
 
+/-- `l[i] = v` for an index that is syntactically non-negative -/
+def setN {α : Type} (l : List α) (i : Nat) (v : α) : Res (List α) :=
+  if i < l.length then .ok (l.set i v) else .fault
+
+/-- `l[i]` for an index that is syntactically non-negative -/
+def indexN {α : Type} [Inhabited α] (l : List α) (i : Nat) : Res α :=
+  if i < l.length then .ok (l.getD i default) else .fault
+
+
 /-- `make([]T, n)` -/
 def make {α : Type} [Inhabited α] (n : Int) : Res (List α) :=
   if 0 ≤ n then .ok (List.replicate n.toNat default) else .fault
@@ -60,27 +69,34 @@ def beU32 (x : Bytes) : Res UInt32 :=
 def beU64 (x : Bytes) : Res UInt64 :=
   if 8 ≤ x.length then .ok (be64 x) else .fault
 
+/-- `binary.BigEndian.Uint16(b[lo:hi])` -/
+def u16At (b : Bytes) (lo hi : Nat) : Res UInt16 := goSlice b lo hi >>= beU16
+/-- `binary.BigEndian.Uint32(b[lo:hi])` -/
+def u32At (b : Bytes) (lo hi : Nat) : Res UInt32 := goSlice b lo hi >>= beU32
+/-- `binary.BigEndian.Uint64(b[lo:hi])` -/
+def u64At (b : Bytes) (lo hi : Nat) : Res UInt64 := goSlice b lo hi >>= beU64
+
 /-- overwrite `d[off .. off+|v|)` with `v` (caller guarantees the window fits) -/
 def splice (d : Bytes) (off : Nat) (v : Bytes) : Bytes :=
   d.take off ++ v ++ d.drop (off + v.length)
 
 /-- `binary.BigEndian.PutUint16(d[lo:hi], v)` -/
-def putU16 (d : Bytes) (lo hi : Int) (v : UInt16) : Res Bytes :=
-  if 0 ≤ lo ∧ lo ≤ hi ∧ hi ≤ (d.length : Int) ∧ 2 ≤ hi - lo then .ok (splice d lo.toNat (put16 v)) else .fault
+def putU16 (d : Bytes) (lo hi : Nat) (v : UInt16) : Res Bytes :=
+  if lo + 2 ≤ hi ∧ hi ≤ d.length then .ok (splice d lo (put16 v)) else .fault
 
 /-- `binary.BigEndian.PutUint32(d[lo:hi], v)` -/
-def putU32 (d : Bytes) (lo hi : Int) (v : UInt32) : Res Bytes :=
-  if 0 ≤ lo ∧ lo ≤ hi ∧ hi ≤ (d.length : Int) ∧ 4 ≤ hi - lo then .ok (splice d lo.toNat (put32 v)) else .fault
+def putU32 (d : Bytes) (lo hi : Nat) (v : UInt32) : Res Bytes :=
+  if lo + 4 ≤ hi ∧ hi ≤ d.length then .ok (splice d lo (put32 v)) else .fault
 
 /-- `binary.BigEndian.PutUint64(d[lo:hi], v)` -/
-def putU64 (d : Bytes) (lo hi : Int) (v : UInt64) : Res Bytes :=
-  if 0 ≤ lo ∧ lo ≤ hi ∧ hi ≤ (d.length : Int) ∧ 8 ≤ hi - lo then .ok (splice d lo.toNat (put64 v)) else .fault
+def putU64 (d : Bytes) (lo hi : Nat) (v : UInt64) : Res Bytes :=
+  if lo + 8 ≤ hi ∧ hi ≤ d.length then .ok (splice d lo (put64 v)) else .fault
 
 /-- `copy(dst[lo:hi], src)`: the new `dst` and the number of elements copied -/
-def copyInto {α : Type} (dst : List α) (lo hi : Int) (src : List α) : Res (List α × Int) :=
-  if 0 ≤ lo ∧ lo ≤ hi ∧ hi ≤ (dst.length : Int) then
-    let n := min (hi - lo).toNat src.length
-    .ok (dst.take lo.toNat ++ src.take n ++ dst.drop (lo.toNat + n), (n : Int))
+def copyInto {α : Type} (dst : List α) (lo hi : Nat) (src : List α) : Res (List α × Nat) :=
+  if lo ≤ hi ∧ hi ≤ dst.length then
+    let n := min (hi - lo) src.length
+    .ok (dst.take lo ++ src.take n ++ dst.drop (lo + n), n)
   else .fault
 
 /-! conversions between Go's integer types (two's-complement truncation) -/
